@@ -2,10 +2,11 @@
 import json
 import re
 
-from .. import common as c, gen, genbins, l1facts, l1stream, translate
+from .. import common as c, gen, genbins, l1facts, l1stream, translate, rs2lean
 
 THEOREMS = [("Sylvia.Thm.C15", "C15." + t) for t in ["used_iff", "used_nodup", "used_unused_partition", "where_iff", "api_consistent"]] + \
-           [("Sylvia.Thm.Obl.Complete.C15", "Obl.extraction_complete_C15")]
+           [("Sylvia.Thm.Obl.Complete.C15", "Obl.extraction_complete_C15")] + \
+           [("Sylvia.Thm.GenericsFn", "GenericsFn." + t) for t in ["visit_path_eq", "used_eq_model", "used_unused_eq", "filter_wheres_eq", "filter_wheres_is_model"]]
 MSG_OF = {"exec": "ExecMsg", "query": "QueryMsg", "sudo": "SudoMsg", "instantiate": "InstantiateMsg", "migrate": "MigrateMsg"}
 
 
@@ -44,6 +45,13 @@ def run(ctx):
                         "generic parameters are type parameters without inline bounds (bounds in where clauses), as in all sylvia examples",
                         "behaviour of compiled generic contracts instantiated with concrete types is exercised separately (generic corpus), see evidence"]
     translate.regenerate()
+    # function translator: CheckGenerics (check_generics.rs) and filter_wheres (utils.rs) -> Extracted/CheckGenFns.lean, WheresFns.lean;
+    # Thm/GenericsFn.lean identifies them with the model's usedOf / filterWheres for every parameter list and every visited path sequence
+    for prof, what in (("checkgen", "sylvia-derive/src/parser/check_generics.rs (CheckGenerics)"), ("wheres", "sylvia-derive/src/utils.rs::filter_wheres")):
+        probs = rs2lean.regenerate(prof)
+        ctx.cov["function_translator_" + prof] = {"source": what, "problems": probs}
+        if probs:
+            ctx.obligation_failed("function-translator(%s)" % prof, "; ".join(probs)[:1500])
     c.prove(ctx, ["Sylvia.Thm.C15"], THEOREMS)
     cts, ifs = l1stream.build(ctx, ctx.size(700, 20000), ctx.size(250, 8000), seed_salt=15)
     ops, impl, model, meta = l1stream.run(ctx, "L1-facts", cts, ifs, "C15")
